@@ -19,6 +19,8 @@ def check(run):
     quick = run.tier == "quick"
     run.regenerate()
     run.lean_props(common.modules_for("C19"))
+    from .. import glue_diff
+    glue_diff.corr(run, quick, parts=("conv",))   # operators/conversions: model vs implementation, bit for bit
     rng = run.rng
     w0 = spherical.Wigner(1, mp_max=0)
     wf = spherical.Wigner(1)
